@@ -2,7 +2,7 @@
 (and the clause (b) stages of C18: validation error locations)."""
 import os
 
-from props import tlc_replay, VERIF
+from props import tlc_replay, trace, VERIF
 
 KNOWN = ["--known", os.path.join(VERIF, "known_findings.json")]
 # few GC threads and a large young generation: the generators allocate many short-lived values and the
@@ -40,9 +40,8 @@ def stages_for(replay, tier, extra=None):
               maxsel=2, maxnodes=2, maxdepth=1, extra=extra),                               # 3 654 documents
             g("V5", replay, "V5", decor="ops", leafs="V5_Leafs", inlines="V5_Inlines", dirs="V5_Dirs", frags="FragsF",
               spread="SpreadAny", maxsel=2, maxnodes=2, maxdepth=2, extra=extra),
-            v1("V1_1f", replay, 1, 2, "{1,2,5,8}", extra=extra),                            # 361
-            v1("V1_1f_QM", replay, 1, 1, "{1,2,5,7}", types='{"Q","M"}', extra=extra),      # 162
-            v1("V1_2f", replay, 2, 2, "{1,2,5}", extra=extra),                              # 3 375
+            v1("V1_1f", replay, 1, 2, "{1,2,5,7}", types='{"Q","M"}', extra=extra),         # 722
+            v1("V1_2f", replay, 2, 3, "{1,2,5}", extra=extra),                              # 29 791
             v1("V1_nest", replay, 2, 2, "{11,12}", types='{"O"}', shape="nested", extra=extra),   # 5 324
         ]
     return [
@@ -51,15 +50,33 @@ def stages_for(replay, tier, extra=None):
         g("V3", replay, "V3", leafs="V3_Leafs", comps="V3_Comps", maxsel=2, maxnodes=3, maxdepth=2, extra=extra),
         g("V3d", replay, "V3", leafs="V3_Leafs", dirs="V3_Dirs", maxsel=1, maxnodes=1, maxdepth=1, extra=extra),
         g("V2", replay, "V2", decor="vdefs", leafs="V2_Leafs", dirs="V2_Dirs", frags="FragsF", spread="SpreadAny",
-          maxsel=2, maxnodes=3, maxdepth=1, extra=extra),
+          maxsel=2, maxnodes=2, maxdepth=1, extra=extra),                                   # 3 654
+        g("V2n3", replay, "V2", decor="vdefs", leafs="V2_Leafs", frags="FragsF", spread="SpreadAny",
+          maxsel=2, maxnodes=3, maxdepth=1, extra=extra),                                   # 17 458
         g("V5", replay, "V5", decor="ops", leafs="V5_Leafs", inlines="V5_Inlines", dirs="V5_Dirs", frags="FragsF",
           spread="SpreadAny", maxsel=2, maxnodes=3, maxdepth=2, extra=extra),
         v1("V1_1f", replay, 1, 2, "{1,2,3,4,5,6,7,8}", extra=extra),                        # 1 225
-        v1("V1_2f", replay, 2, 3, "{1,2,5,6}", extra=extra),                                # 59 319
+        v1("V1_2f", replay, 2, 3, "{1,2,3,4,5,6,7,8}", timeout=3000, extra=extra),          # 357 911
         v1("V1_2f_QM", replay, 2, 2, "{1,2,5,7}", types='{"Q","M"}', extra=extra),          # 28 899
         v1("V1_3f", replay, 3, 3, "{1,2}", timeout=3000, extra=extra),                      # 279 841
         v1("V1_nest", replay, 2, 2, "{11,12,15}", types='{"O"}', shape="nested", extra=extra),
     ]
+
+
+def flip_observed(src, dst, seed):
+    """binding self-test of Trace_C02: the same fixtures with every observed verdict inverted must be rejected"""
+    lines = open(src).read().splitlines()
+    out = [l.replace('"obs":true', '"obs":FLIP').replace('"obs":false', '"obs":true').replace('"obs":FLIP', '"obs":false')
+           for l in lines]
+    open(dst, "w").write("\n".join(out) + "\n")
+    return "every observed verdict inverted"
+
+
+def calibration():
+    """DESIGN 4.8: the repository's own rule fixtures (green on this tree) must be accepted by the specification"""
+    return trace("Trace_C02", "Trace_C02", "C02",
+                 dict(spec="TraceSpec", constants={"Listed": "{}"}, postcondition="TraceAccepted"),
+                 corrupt_fn=flip_observed, timeout=600)
 
 
 def only(sts):
@@ -69,7 +86,7 @@ def only(sts):
 
 
 def stages(tier, seed):
-    return only(stages_for("C02", tier))
+    return only([calibration()] + stages_for("C02", tier))
 
 
 def c18b_stages(tier, seed):
